@@ -35,6 +35,10 @@ ItemVerdict(kind, got, want, full) ==
        IF got.k # want.k \/ got.first # want.first THEN "wrong-trace"
        ELSE IF full /\ ~ProcOK(got.proc, want.proc) THEN "process-column"
        ELSE "ok"
+  ELSE IF kind = "logs" THEN
+       IF got.i # want.i THEN "wrong-log-record"
+       ELSE IF full /\ ~ProcOK(got.proc, want.proc) THEN "process-column"
+       ELSE "ok"
   ELSE IF got.start # want.start THEN "wrong-sample"
        ELSE IF full /\ ~FramesOK(got.frames, want.frames) THEN "attribution"
        ELSE "ok"
